@@ -1,6 +1,7 @@
 package main
 
 import (
+	"regexp"
 	"fmt"
 	"go/types"
 	"sort"
@@ -124,6 +125,12 @@ func runC10(c *Ctx) {
 		if strings.HasPrefix(k, "consensus.validateSignatures:index:index make[") && strings.HasSuffix(k, ".used") {
 			c.Info("sink-discharged", k, where, "reviewed exception: e.used is made with len(e.keys) in the same literal; PublicKeyIndex is bounded against len(e.keys) (row v1-sig-key-index)")
 			continue
+		}
+		for _, ro := range reviewedSinkOperands {
+			if s.Kind == ro.kind && ro.base.MatchString(s.Base) && ro.operand.MatchString(s.Operand) && strings.HasPrefix(FuncName(s.Fn), ro.pkgPrefix) {
+				c.Info("sink-discharged", k, where, "reviewed exception: "+ro.why)
+				skip = true
+			}
 		}
 		for pre, why := range reviewedSinkPrefixes {
 			if strings.HasPrefix(k, pre) {
@@ -338,10 +345,19 @@ var reviewedSinks = map[string]string{
 // MidState-internal indices: elements[id] is written only together with an append to the slice of
 // the element's own type, so the index is in range for IDs of that type; IDs of another type can
 // only be supplied through an ephemeral v2 parent, which validateEphemeral* bounds (row ephemeral-index-bound).
+// reviewedSinkOperands identifies a reviewed sink by what is indexed and by what, not by the enclosing function
+// (closures get renumbered and helpers get extracted).
+var reviewedSinkOperands = []struct {
+	kind, pkgPrefix string
+	base, operand   *regexp.Regexp
+	why             string
+}{
+	{"index", "consensus.", regexp.MustCompile(`\.v2fces$`), regexp.MustCompile(`\.elements\[.*Parent\.ID\]`), "ms.elements[parent ID] for a v2 contract parent that has just been shown to be an unresolved accumulator member (C02 rows v2-live:*), whose index was recorded together with the append to ms.v2fces"},
+}
+
 var reviewedSinkPrefixes = map[string]string{
 	"(consensus.MidState).record":      "index obtained from ms.elements for an ID recorded under this element type (see comment on reviewedSinkPrefixes)",
 	"(consensus.MidState).createAttestationElement:index": "index of the element appended on the line above",
-	"consensus.validateV2FileContracts$4:index:index": "ms.elements[fce.ID] for a contract parent that validateParent has shown to be an unresolved accumulator member",
 
 	"(consensus.State).medianTimestamp:index:": "ts has numTimestamps() >= 1 elements; len(ts)/2 and len(ts)/2-1 (taken only for even, hence >= 2, lengths) are in range",
 }
